@@ -533,6 +533,14 @@ class Check:
         print("%s replay: the case no longer violates on this tree" % self.pid)
         return 0
 
+    def want_reproduction(self, key, seen_count, limit=8):
+        """Whether the next deviation of class `key` should be confirmed on a fresh worker: the first two of every class, and further
+        ones (up to `limit`) as long as none of that class has shown again - one deviation that depends on the wall clock must not
+        hide a deterministic one of the same class."""
+        if seen_count <= 2:
+            return True
+        return key in self._unrep_keys and key not in self._confirmed_keys and seen_count <= limit
+
     def reproduce(self, family, sc, still_bad, env=None, strict=False):
         """Confirm a deviation on a fresh worker: first the scenario alone; if it does not show alone (state kept by the
         library across calls in one process), together with the scenarios that preceded it in its worker process.
